@@ -100,8 +100,16 @@ func svRun(tr *tracer.T, rng *rand.Rand, steps []map[string]any, nrand int) {
 			gossip(x.N, x.To)
 		}
 	}
+	member := func(n int) {
+		what, id := []string{"join", "leave", "update"}[rng.Intn(3)], uint64(1+rng.Intn(3))
+		views[n-1].VerifMembership(what, id)
+		tr.Emit(map[string]any{"ev": "member", "node": n, "what": what, "id": id})
+		svObserve(tr, n, views[n-1], shards)
+	}
 	for i := 0; i < nrand; i++ {
-		switch r := rng.Intn(10); {
+		switch r := rng.Intn(12); {
+		case r >= 10:
+			member(1 + rng.Intn(3))
 		case r < 6:
 			var ups []svUp
 			for j, k := 0, 1+rng.Intn(4); j < k; j++ {
